@@ -37,6 +37,12 @@ pub fn nblocks(rng: &mut Rng, w: usize, bs: usize, tier: Tier) -> (usize, &'stat
             let bytes = *rng.pick(&[32_768usize + 1, 40_000, 65_536 + 1, 70_001, 131_072 + 5]);
             return (bytes.div_ceil(bs).min(MAX_LONG_BYTES / bs), "long>64KiB");
         }
+        if roll < 140 && roll >= 81 && (w + 2) * bs > 65536 {
+            // a backend so wide that one batch alone exceeds 64 KiB: the width-relative candidates
+            // below are capped away, so give whole batches (+ the two CTS tail blocks) their own class
+            let n = *rng.pick(&[w, w + 1, w + 2, w + 3, 2 * w + 1, 2 * w + 3]);
+            return (n.min(MAX_LONG_BYTES / bs), "long>=batch");
+        }
         if roll < 81 && bs <= 16 {
             // more than 65536 blocks in one call
             return ((65_536 + rng.below(12)).min(MAX_LONG_BYTES / bs), "long>65536blk");
@@ -404,4 +410,32 @@ pub fn ctr_iv(rng: &mut Rng, fl: Flavor, len: usize) -> (Vec<u8>, &'static str) 
         }
     }
     (v, name)
+}
+
+/// a 128-bit value assembled from boundary-biased limbs (8, 16, 32 or 64 bits wide): multi-limb
+/// arithmetic written by hand (hi/lo splits, narrowing casts) goes wrong at values like
+/// k * 2^96 - 3 that no single power-of-two candidate list reaches
+pub fn limb_u128(rng: &mut Rng) -> u128 {
+    let lb = *rng.pick(&[8u32, 16, 32, 32, 32, 64]);
+    let mask: u128 = (1u128 << lb) - 1;
+    let mut v: u128 = 0;
+    let mut sh = 0;
+    while sh < 128 {
+        let limb: u128 = match rng.below(8) {
+            0 | 1 => 0,
+            2 | 3 => mask,
+            4 => mask - 1,
+            5 => 1,
+            6 => 1u128 << (lb - 1),
+            _ => rng.u128() & mask,
+        };
+        v |= limb << sh;
+        sh += lb;
+    }
+    // land just below / on / just above the limb pattern
+    match rng.below(4) {
+        0 => v.wrapping_sub(rng.below(4) as u128),
+        1 => v.wrapping_add(rng.below(4) as u128),
+        _ => v,
+    }
 }
